@@ -75,6 +75,12 @@ type Case struct {
 	Kind string `json:"kind"`
 	// seq
 	Ops []Op `json:"ops,omitempty"`
+	// seq: buckets with qps != 1 refill noticeably while the case runs, so their grants are judged (against the
+	// CONFIGURED qps/burst, in real time, one-sided) but not compared with the time-free model
+	LooseTB bool `json:"looseTB,omitempty"`
+	// bucket: Resize entries travel SyncFlowControl on a local store (next to a second schema that is edited so
+	// that the spec differs) instead of a direct fc.Resize
+	ViaSync bool `json:"viaSync,omitempty"`
 	// bucket, rate
 	QPS   int32  `json:"qps,omitempty"`
 	Burst int32  `json:"burst,omitempty"`
@@ -343,8 +349,9 @@ type obs struct {
 }
 
 type runResult struct {
-	ok       bool
-	features map[string]bool
+	ok          bool
+	kind, class string // of the failure, when !ok
+	features    map[string]bool
 }
 
 func runSeq(c *rig.Ctx, cs Case, record bool) runResult {
@@ -353,14 +360,14 @@ func runSeq(c *rig.Ctx, cs Case, record bool) runResult {
 		if record {
 			recordFailure(c, rig.Failure{Kind: kind, Class: class, What: what, Case: cs, Impl: impl, Model: model})
 		}
-		res.ok = false
+		res.ok, res.kind, res.class = false, kind, class
 		return res
 	}
 	w := newWorld()
 	t0 := time.Now()
 	var observations []obs
 	epochs := map[string]*tbEpoch{}
-	prevSnap := []FCSnap{}
+	conf := newConfTracker()
 	for i, op := range cs.Ops {
 		tBefore := time.Now()
 		reply, pm := w.exec(op)
@@ -384,19 +391,21 @@ func runSeq(c *rig.Ctx, cs Case, record bool) runResult {
 					ep.grants = append(ep.grants, grantEv{tBefore, tAfter, int64(r.Limit)})
 					if msg := ep.check(); msg != "" {
 						res.features["tb-window-spans-resync"] = true
-						return fail("judge", "c08.tokens-rate", fmt.Sprintf("after op %d %s: token bucket %q (qps=%d burst=%d, parameters unchanged since op %d, %d re-syncs/Resizes to the same values in between): %s",
+						return fail("judge", "c08.tokens-rate", fmt.Sprintf("after op %d %s: token bucket %q (configured qps=%d burst=%d, configuration unchanged since op %d, %d re-syncs/Resizes to the same values in between): %s",
 							i, rig.Canon(op), rig.UnHex(op.Reqs[k].FC), ep.qps, ep.burst, ep.startOp, ep.sameResizes, msg), observations, nil)
 					}
 				}
 			}
 		}
-		updateEpochs(epochs, op, i, prevSnap, snap, tBefore)
+		updateEpochs(epochs, conf, op, i)
 		for _, ep := range epochs {
 			if ep.sameResizes > 0 && len(ep.grants) > 0 {
 				res.features["tb-window-spans-resync"] = true
 			}
+			if ep.qps != ep.burst && len(ep.grants) > 0 {
+				res.features["tb-judged-with-qps!=burst"] = true
+			}
 		}
-		prevSnap = snap
 		if j, d := w.quiescentCheck(); j != "" {
 			return fail("judge", "c08.total", fmt.Sprintf("after op %d (%s): %s", i, rig.Canon(op), j), observations, nil)
 		} else if d != "" {
@@ -440,7 +449,7 @@ func runSeq(c *rig.Ctx, cs Case, record bool) runResult {
 			}
 		}
 	}
-	if slow && hasTB {
+	if slow && hasTB && !cs.LooseTB {
 		c.Count("seq:diff-skipped-slow-run-with-bucket")
 		return res
 	}
@@ -449,6 +458,31 @@ func runSeq(c *rig.Ctx, cs Case, record bool) runResult {
 		var iv, mv interface{}
 		json.Unmarshal(ib, &iv)
 		json.Unmarshal(m.Model[i].Reply, &mv)
+		if cs.LooseTB && op.K == "acq" {
+			// drop the entries that concern a token bucket (judged, not compared)
+			tb := map[string]bool{}
+			if i > 0 {
+				for _, f := range observations[i-1].Snap {
+					if f.T == "tb" {
+						tb[f.Name] = true
+					}
+				}
+			}
+			strip := func(v interface{}) interface{} {
+				l, ok := v.([]interface{})
+				if !ok || len(l) != len(op.Reqs) {
+					return v
+				}
+				out := []interface{}{}
+				for k, e := range l {
+					if !tb[op.Reqs[k].FC] {
+						out = append(out, e)
+					}
+				}
+				return out
+			}
+			iv, mv = strip(iv), strip(mv)
+		}
 		if rig.Canon(iv) != rig.Canon(mv) {
 			return fail("diff", "c08.reply", fmt.Sprintf("op %d %s: code answered %s, model %s", i, rig.Canon(op), rig.Canon(iv), rig.Canon(mv)), iv, mv)
 		}
@@ -522,65 +556,113 @@ func (e *tbEpoch) check() string {
 	return ""
 }
 
-// updateEpochs: a bucket's window is reset only when the bucket is (re)created, changes type, or its qps/burst
-// really change (decided from the op itself, not from what the code did).
-func updateEpochs(epochs map[string]*tbEpoch, op Op, opIdx int, before, after []FCSnap, t time.Time) {
-	prev := map[string]FCSnap{}
-	for _, f := range before {
-		prev[f.Name] = f
+// confTracker restates, from the ops alone, what is CONFIGURED for each flow control of the cluster: the schemas
+// delivered by SyncFlowControl (a spec equal to the previous one is no delivery; entries are applied in order;
+// names of the previous spec that get no flow control any more are dropped) and direct Resize calls. The
+// token-rate judge measures the real buckets against these values, never against what the code stored.
+type confFC struct {
+	typ  string
+	q, b int32
+}
+
+type confTracker struct {
+	fcs       map[string]confFC
+	lastSpec  string
+	specNames map[string]bool
+}
+
+func newConfTracker() *confTracker {
+	return &confTracker{fcs: map[string]confFC{}, lastSpec: "[]", specNames: map[string]bool{}}
+}
+
+func canonSpec(l []Schema) string {
+	if len(l) == 0 {
+		return "[]"
 	}
-	seen := map[string]bool{}
-	for _, f := range after {
-		if f.T != "tb" {
+	return rig.Canon(l)
+}
+
+// apply returns, per token-bucket name, whether the op really changed it ("reset": created, type changed, qps or
+// burst changed) or delivered it again unchanged ("same").
+func (t *confTracker) apply(op Op) (reset, same map[string]bool) {
+	reset, same = map[string]bool{}, map[string]bool{}
+	switch op.K {
+	case "sync":
+		cs := canonSpec(op.Schemas)
+		if cs == t.lastSpec {
+			return
+		}
+		newset := map[string]bool{}
+		for _, sc := range op.Schemas {
+			if sc.Mif == nil && sc.Tb == nil {
+				continue
+			}
+			newset[sc.Name] = true
+			nf := confFC{typ: "tb"}
+			if sc.Mif != nil {
+				nf = confFC{typ: "mif", q: *sc.Mif}
+			} else {
+				nf.q, nf.b = sc.Tb[0], sc.Tb[1]
+			}
+			cur, ok := t.fcs[sc.Name]
+			switch {
+			case !ok || cur.typ != nf.typ:
+				reset[sc.Name] = true
+				delete(same, sc.Name)
+			case nf.typ == "tb" && (cur.q != nf.q || cur.b != nf.b):
+				reset[sc.Name] = true
+				delete(same, sc.Name)
+			case nf.typ == "tb" && !reset[sc.Name]:
+				same[sc.Name] = true
+			}
+			t.fcs[sc.Name] = nf
+		}
+		for n := range t.specNames {
+			if !newset[n] {
+				delete(t.fcs, n)
+			}
+		}
+		t.specNames = map[string]bool{}
+		for _, sc := range op.Schemas {
+			t.specNames[sc.Name] = true
+		}
+		t.lastSpec = cs
+	case "resize":
+		cur, ok := t.fcs[op.FC]
+		if !ok {
+			return
+		}
+		if cur.typ == "tb" {
+			if cur.q != op.N || cur.b != op.Burst {
+				reset[op.FC] = true
+			} else {
+				same[op.FC] = true
+			}
+			t.fcs[op.FC] = confFC{typ: "tb", q: op.N, b: op.Burst}
+		} else {
+			t.fcs[op.FC] = confFC{typ: "mif", q: op.N}
+		}
+	}
+	return
+}
+
+// updateEpochs: a bucket's judging window is reset only when the bucket is (re)created, changes type, or its
+// configured qps/burst really change.
+func updateEpochs(epochs map[string]*tbEpoch, conf *confTracker, op Op, opIdx int) {
+	reset, same := conf.apply(op)
+	for n, f := range conf.fcs {
+		if f.typ != "tb" || f.q <= 0 {
+			delete(epochs, n)
 			continue
 		}
-		seen[f.Name] = true
-		pf, had := prev[f.Name]
-		ep := epochs[f.Name]
-		reset, touched := false, false
-		if !had || pf.T != "tb" || ep == nil {
-			reset = true
-		} else {
-			switch op.K {
-			case "resize":
-				if op.FC == f.Name {
-					touched = true
-					if op.N != pf.QPS || op.Burst != pf.Burst {
-						reset = true
-					}
-				}
-			case "sync":
-				typ, q, b := "tb", pf.QPS, pf.Burst
-				for _, sc := range op.Schemas {
-					if sc.Name != f.Name || (sc.Mif == nil && sc.Tb == nil) {
-						continue
-					}
-					touched = true
-					if sc.Mif != nil {
-						if typ != "mif" {
-							reset = true
-						}
-						typ = "mif"
-					} else {
-						if typ != "tb" || sc.Tb[0] != q || sc.Tb[1] != b {
-							reset = true
-						}
-						typ, q, b = "tb", sc.Tb[0], sc.Tb[1]
-					}
-				}
-			}
-			if f.QPS != ep.qps || f.Burst != ep.burst {
-				reset = true
-			}
-		}
-		if reset {
-			epochs[f.Name] = &tbEpoch{qps: f.QPS, burst: f.Burst, startOp: opIdx}
-		} else if touched {
+		if ep := epochs[n]; ep == nil || reset[n] {
+			epochs[n] = &tbEpoch{qps: f.q, burst: f.b, startOp: opIdx}
+		} else if same[n] {
 			ep.sameResizes++
 		}
 	}
 	for n := range epochs {
-		if !seen[n] {
+		if f, ok := conf.fcs[n]; !ok || f.typ != "tb" {
 			delete(epochs, n)
 		}
 	}
@@ -601,8 +683,15 @@ func noteSet(f map[string]bool, cur int32, accept bool, latest int32, err string
 	}
 }
 
-func shrinkSeq(c *rig.Ctx, cs Case) Case {
-	cs.Ops = rig.ShrinkList(cs.Ops, func(l []Op) bool { x := cs; x.Ops = l; return !runSeq(c, x, false).ok })
+// shrinkSeq keeps the kind and class of the failure: a property violation must not be shrunk into a mere
+// model-vs-code difference.
+func shrinkSeq(c *rig.Ctx, cs Case, orig runResult) Case {
+	cs.Ops = rig.ShrinkList(cs.Ops, func(l []Op) bool {
+		x := cs
+		x.Ops = l
+		r := runSeq(c, x, false)
+		return !r.ok && r.kind == orig.kind && r.class == orig.class
+	})
 	return cs
 }
 
@@ -616,8 +705,25 @@ func runBucket(c *rig.Ctx, cs Case, record bool) bool {
 		}
 		return false
 	}
-	fc := flowcontrol.NewGlobalFlowControl(proxyv1alpha1.FlowControlSchema{Name: "b", FlowControlSchemaConfiguration: proxyv1alpha1.FlowControlSchemaConfiguration{
-		GlobalTokenBucket: &proxyv1alpha1.TokenBucketFlowControlSchema{QPS: cs.QPS, Burst: cs.Burst}}})
+	var fc flowcontrol.GlobalFlowControl
+	var w *world
+	edits := int32(1)
+	curQ, curB := cs.QPS, cs.Burst
+	syncSpec := func() {
+		// the bucket next to a max-in-flight schema whose limit is edited each time, so that the spec differs
+		w.store.SyncFlowControl(cluster, toSchemas([]Schema{{Name: rig.Hex("b"), Tb: &[2]int32{curQ, curB}}, {Name: rig.Hex("x"), Mif: i32(edits)}}))
+		fc, _ = w.store.GetFlowControl(cluster, "b")
+	}
+	if cs.ViaSync {
+		w = newWorld()
+		syncSpec()
+	} else {
+		fc = flowcontrol.NewGlobalFlowControl(proxyv1alpha1.FlowControlSchema{Name: "b", FlowControlSchemaConfiguration: proxyv1alpha1.FlowControlSchemaConfiguration{
+			GlobalTokenBucket: &proxyv1alpha1.TokenBucketFlowControlSchema{QPS: cs.QPS, Burst: cs.Burst}}})
+	}
+	if fc == nil {
+		return fail("diff", "c08.bucket-shim", "no token bucket was built", nil, nil)
+	}
 	lim := flowcontrol.VerifC08Limiter(fc)
 	if lim == nil {
 		return fail("diff", "c08.bucket-shim", "NewGlobalFlowControl did not build a token bucket", nil, nil)
@@ -626,9 +732,23 @@ func runBucket(c *rig.Ctx, cs Case, record bool) bool {
 	oks := []bool{}
 	for _, call := range cs.Calls {
 		if call.Resize != nil {
-			// what a re-sync of the cluster's spec does to this schema (ResizeGlobalFlowControl)
-			oks = append(oks, fc.Resize(call.Resize[0], call.Resize[1]))
+			if cs.ViaSync {
+				// the real wiring: SyncFlowControl -> syncLocalFlowControls -> ResizeGlobalFlowControl -> Resize
+				changed := call.Resize[0] != curQ || call.Resize[1] != curB
+				curQ, curB = call.Resize[0], call.Resize[1]
+				edits++
+				syncSpec()
+				if fc == nil {
+					return fail("diff", "c08.bucket-shim", "the bucket vanished on a re-sync", nil, nil)
+				}
+				oks = append(oks, changed)
+			} else {
+				oks = append(oks, fc.Resize(call.Resize[0], call.Resize[1]))
+			}
 			lim = flowcontrol.VerifC08Limiter(fc)
+			if lim == nil {
+				return fail("diff", "c08.bucket-shim", "the flow control is no token bucket any more", nil, nil)
+			}
 			continue
 		}
 		oks = append(oks, lim.AllowN(base.Add(time.Duration(call.Now)), int(call.N)))
@@ -1048,7 +1168,7 @@ func main() {
 			c.Count(fmt.Sprintf("seq-len:%d0s", len(cs.Ops)/10))
 			c.Trace()
 			if !r.ok {
-				runSeq(c, shrinkSeq(c, cs), true)
+				runSeq(c, shrinkSeq(c, cs, r), true)
 			}
 		}
 		// 3. scripted bucket
